@@ -445,6 +445,21 @@ class Result:
                                     detail=build['log'][-1500:]))
             self.cov['print_assumptions'] = {}
         self.cov['proof_build_s'] = round(build['wall_s'], 1)
+        if build['ok'] and (self.tier == 'thorough' or os.environ.get('VERIF_COQCHK')):
+            # independent re-check of the compiled cone, and the axioms it relies on
+            mod = 'BV.' + props_file[:-2].replace('/', '.')
+            try:
+                rc, out, dt = sh(['coqchk', '-silent', '-o', '-Q', '.', 'BV', mod], cwd=COQ, timeout=1200)
+            except subprocess.TimeoutExpired:
+                rc, out, dt = 124, 'coqchk timed out', 1200
+            summary = out[out.find('CONTEXT SUMMARY'):] if 'CONTEXT SUMMARY' in out else out[-1500:]
+            m = re.search(r'\* Axioms:(.*?)\n\s*\n\* Constants', summary, re.S)
+            axioms = ' '.join(m.group(1).split()) if m else '?'
+            self.cov['coqchk'] = dict(cmd='coqchk -silent -o -Q . BV ' + mod, rc=rc, wall_s=round(dt, 1), axioms=axioms,
+                                      nothing_relies_on_type_in_type=('<none>' in summary.split('type-in-type:')[-1][:20]) if 'type-in-type' in summary else None)
+            self.cov['trusted_base'].append('coqchk -o on the cone of %s: axioms %s' % (mod, axioms))
+            if rc != 0:
+                self.broken.append(dict(kind='coqchk', name=mod, detail=summary[-1500:]))
         return build
 
     def finish(self):
